@@ -53,7 +53,13 @@ structure Composed where
 /-- the new multiple after one unit: `if unit.multiple != 1: multiple *= unit.multiple ** exp` -/
 def stepMultiple (acc um : Num) (exp : Int) : Except Err Num :=
   if cmpEq um (.int 1) then .ok acc
-  else do let p ← rawPowInt um exp; pyLin .mul acc p
+  else do
+    let p ← rawPowInt um exp
+    let m ← pyLin .mul acc p
+    -- fix 3818d9a: float * float overflows to inf silently; the code now raises OverflowError for an infinite factor
+    match m with
+    | .flt x => if x.isInf then .error .overflow else .ok m
+    | _ => .ok m
 
 /-- the two offset rules: an offset unit cannot be combined with others, nor carry an exponent ≠ 1 -/
 def offsetBad (offset : Num) (n : Nat) (exp : Int) : Bool :=
